@@ -1,6 +1,7 @@
 """C12 check configuration."""
 
 PROP = {
+    "level_text_more": "Bursts of parallel wrong Basic attempts from one address are part of the HTTP limiter histories: no more passwords may be evaluated than the limit allows (read from the limiter's failure count) and the address must be blocked afterwards.",
     "thorough_scale": 4,
     "pkg": "internal/home",
     "files": ["home/common_assembly_test.go", "home/c11_test.go", "home/c12_test.go"],
